@@ -60,6 +60,7 @@ func cmdReplay(args []string) int {
 	}
 	if pd, ok := propDefs[rp.Property]; ok {
 		skipLabels = pd.Skip
+		curProp = rp.Property
 	}
 	eng := mustEngine(*repo, *contracts, nil)
 	classes := map[string]bool{rp.Class: true, "CAND": true}
